@@ -12,7 +12,8 @@ LEVEL = "exploration"
 
 def run(ctx):
     rng = ctx.rng
-    langs = core.run_cases(ctx, "harness.export", "export_locales", [{}], nproc=1)[0]["language_order"]
+    exported = core.run_cases(ctx, "harness.export", "export_locales", [{}], nproc=1)[0]
+    langs = exported["language_order"]
     findings, _ = core.load_findings("C05")
     known = {(f["signature"]["locale"], f["signature"]["word"]): f["id"] for f in findings}
     rep = core.replay_cases(ctx)
@@ -22,13 +23,17 @@ def run(ctx):
         days, years = [rng.choice([1, 2, 3]), rng.choice([13, 17, 21]), 28], [rng.choice([2015, 1999, 2024])]
         refs = [[2021, 6, d, 10, 30, 0, 0] for d in (8, rng.randint(9, 23), 24)]
     else:
-        days, years = list(range(1, 29)), [1987, 2015, 2024, 2100]
-        refs = [[2021, m, d, 10, 30, 0, 0] for m in (2, 6) for d in range(8, 25)]
-    reqs = [{"lang": L, "days": days, "years": years, "refs": refs, "quick": ctx.quick()} for L in langs]
+        days, years = list(range(1, 29)), [1987, 2024]
+        refs = [[2021, 6, d, 10, 30, 0, 0] for d in range(8, 25)]
+    reqs = []
+    for L in langs:
+        tg = [L] + sorted(exported["langs"][L]["locales"])
+        for i in range(0, len(tg), 6):          # one work unit = a language and up to 5 of its locales (load balance)
+            reqs.append({"lang": L, "targets": tg[i:i + 6], "days": days, "years": years, "refs": refs, "quick": ctx.quick()})
     res = core.run_cases(ctx, "harness.c05lib", "walk_language", reqs, chunk=1)
     records, index = [], []
     nwords = 0
-    for L, recs in zip(langs, res):
+    for L, recs in zip([r["lang"] for r in reqs], res):
         for rec in recs:
             if "error" in rec:
                 ctx.violation({"locale": rec["target"]}, "the locale cannot be loaded: %s" % rec["error"])
